@@ -3,7 +3,7 @@
 
 Confirms a seeded property-breaking change independently and records it under seeded/<ID>[_k]/:
   1. the patch applies to a clean worktree of /repo HEAD;
-  2. cpputest's own test suite still passes with it (/opt/mut_tools/baseline.sh);
+  2. cpputest's own test suite still passes with it (tools/baseline.sh);
   3. the demonstration passes on the clean tree and fails on the changed tree;
   4. our check for the property, run against the changed tree (VERIF_REPO), reports a VIOLATION.
 Scratch worktrees live under /tmp and are removed."""
@@ -54,7 +54,7 @@ def main():
             ver["patch_error"] = p.stdout[-500:]
             raise SystemExit
         if not skip_baseline:
-            p = sh("/opt/mut_tools/baseline.sh %s" % wt_mut, timeout=1800)
+            p = sh("%s/tools/baseline.sh %s" % (VERIF, wt_mut), timeout=1800)
             out = p.stdout
             ver["baseline_tail"] = out[-600:]
             ver["baseline_passes"] = ("100% tests passed" in out) and ("OK (" in out.split("CppUTestExt tests")[-1])
@@ -88,7 +88,7 @@ def main():
     # the run above regenerated lean/CppUModel/Gen from the changed tree: put the clean tree's back
     sh("rm -f %s/.cache/gen_tree_stamp; python3 %s/tools/regen_all.py" % (VERIF, VERIF))
     meta["verified"] = ver
-    meta["what_i_ran"] = ("tools/seed_eval.py: git apply on a scratch worktree of /repo HEAD; /opt/mut_tools/baseline.sh (ctest + hand-built "
+    meta["what_i_ran"] = ("tools/seed_eval.py: git apply on a scratch worktree of /repo HEAD; tools/baseline.sh (ctest + hand-built "
                           "CppUTestExt suite); run_demo.sh on clean and changed tree; VERIF_REPO=<changed tree> ./check %s --tier quick" % pid)
     json.dump(meta, open(meta_path, "w"), indent=1)
     # generated demo binaries are not kept
